@@ -36,6 +36,18 @@ BUILT = {
   note="Trusted: TLC. Known finding: decoded strings that are not valid UTF-8 cannot be re-encoded. Messages that no container holds, unknown and developer fields are not File content.",
   technique="TLA+ reference decoder + TLC trace validation of two re-encode generations per accepted input",
   design="DESIGN.md section 5, C07"),
+ "C08": dict(
+  level="model_checking",
+  text="ApiImpl.tla models the process: calls over a pool, a process-wide accumulator read and written by accumulating records. TLC checks ResultsPure (every call returns Pure(input)) for all call histories up to length 3/4 over three abstract inputs for per-call accumulators, and finds the counterexample Decode(A); Decode(A) for the design as implemented. The histories TLC enumerates, every ordered pair of pool calls and seeded random histories (Decode / DecodeChained / Encode over device files, component streams, files starting with compressed headers or local times, chains, Files with over-long strings) are replayed against the real library, each in its own fresh child process; Pure is tabulated by executing each call first in a fresh process; TLC (Trace_Api) compares every recorded result with the table. Encode is repeated 20x per File inside a call (identical bytes required).",
+  note="Trusted: TLC; digests (sha256 of the full projection / of the bytes written). Known finding: record.distance continues across Decode calls (package-level accumulator).",
+  technique="TLA+ process model (ApiImpl) checked by TLC + replay of TLC-enumerated and random call histories in fresh processes + TLC trace validation against fresh-process results",
+  design="DESIGN.md section 5, C08"),
+ "C09": dict(
+  level="model_checking",
+  text="ApiImpl.tla with two goroutines: TLC explores every interleaving of record-granularity steps with Load and Store of the process-wide accumulator as separate steps; NoRace and ResultsPure hold for per-call state and fail for the design as implemented. Every schedule TLC enumerates is forced on real goroutines through the public interface (a gated reader hands out exactly one record per Read and blocks until the schedule releases that goroutine), results compared with the sequential ones. Data-race freedom is decided by the Go race detector on a -race build: 8 free-running goroutines over the pool (Decode, DecodeChained, CheckIntegrity, Encode) started together in a fresh process, once over inputs without accumulated fields (must be clean and equal to the alone-results) and once over the whole pool; race reports and results are validated by TLC (Trace_Api: NoRace, result = Pure).",
+  note="Trusted: TLC, the Go race detector (its reports are observed facts in the trace). Known findings: race and interleaving-dependent record.distance on the package-level accumulators.",
+  technique="TLA+ process model with 2 goroutines (TLC, all interleavings) + deterministic schedule replay through gated readers + race-detector stress validated against the Api contract",
+  design="DESIGN.md section 5, C09"),
  "C10": dict(
   level="model_checking",
   text="FrameImpl.tla transcribes the decoder's reader (binary.Read of the size byte, io.ReadFull of the header, fill with min(buffer, limit - n), readByte/readFull, checkCRC, the DecodeChained loop) against an environment that answers every Read with any 1..req available bytes, EOF or a fault (optionally together with the last bytes). TLC checks NeverPastFrame, SuccessConsumesExactly, CleanEndIsOk, PartialContent and termination for every cut point, every fault point and every chunking of small chains (the state is position/buffered/fetched, so 2^n chunkings collapse to O(n^2) states). Recorded calls of the real code (valid files followed by trailing bytes x 10 chunk scripts x 5 entry points; chains of 2-3 files) are validated by TLC: every Read request ends inside its frame, success consumes header+data+2, every chained file equals the Contract's decode; chained results are also compared with the same bytes decoded alone, and DecodeHeader / DecodeHeaderAndFileID with the Contract's header and file_id.",
